@@ -241,6 +241,18 @@ Definition check_within_ulp (B p : Z) (x : xval) (s e : Z) : bool :=
     match cmp_kx B 1 x lo_s lo_e, cmp_kx B 1 x hi_s hi_e with Lt, Gt => true | _, _ => false end
   end.
 
+(** |r - x| <= ulp_p(x): the measured envelope of the ln/exp route for p >= 16 (open finding F05) *)
+Definition check_within_ulp_incl (B p : Z) (x : xval) (s e : Z) : bool :=
+  match cmp_kx B 1 x s e with
+  | Eq => true
+  | _ =>
+    if x_is_zero x then false else
+    let u := x_exp B x - p + 1 in
+    let '(lo_s, lo_e) := f_add_ulp B s e u (-1) in
+    let '(hi_s, hi_e) := f_add_ulp B s e u 1 in
+    match cmp_kx B 1 x lo_s lo_e, cmp_kx B 1 x hi_s hi_e with (Lt | Eq), (Gt | Eq) => true | _, _ => false end
+  end.
+
 (** are the two bases powers of one another?  [ilog_exact n b] = k if n = b^k (k >= 1) else 0 *)
 Fixpoint ilog_exact_fuel (fuel : nat) (n b pow k : Z) : Z :=
   match fuel with
